@@ -279,6 +279,19 @@ func lastArgs(e *Event, n int) []*T {
 	return a[len(a)-n:]
 }
 
+// flatArgs: the arguments with by-value parameter bundles (struct values built at the call) replaced by their fields.
+func flatArgs(args []*T) []*T {
+	var out []*T
+	for _, a := range args {
+		if a != nil && a.Op == "struct" {
+			out = append(out, a.Args...)
+		} else {
+			out = append(out, a)
+		}
+	}
+	return out
+}
+
 // argN: the n-th entry of fullArgs, nil when absent.
 func argN(e *Event, n int) *T {
 	a := fullArgs(e)
